@@ -11,6 +11,9 @@ pub fn entries() -> Vec<(&'static str, crate::EntryFn)> {
         ("game-generic", entry_generic),
         ("game-module", entry_module),
         ("game-protocol", entry_protocol),
+        ("any-generic", entry_any_generic),
+        ("any-module", entry_any_module),
+        ("any-protocol", entry_any_protocol),
     ]
 }
 
@@ -127,4 +130,126 @@ fn entry_protocol(args: &[&str]) -> String {
         || gamedig::protocols::valve::query(&addr(port), engine, Some(g), timeout(r)).map(game::Response::new_from_valve_response),
         show_game_response,
     )
+}
+
+// ---- every protocol: the same three paths, compared through the protocol-independent form of the response ----
+
+/// sorted JSON text of `as_original()` (hash maps print in a random order otherwise)
+pub struct AnyResp(pub String);
+impl crate::views::ViewDump for AnyResp {}
+
+fn sort_value(v: serde_json::Value) -> serde_json::Value {
+    use serde_json::Value::*;
+    match v {
+        Object(m) => {
+            let mut e: Vec<(std::string::String, serde_json::Value)> = m.into_iter().map(|(k, v)| (k, sort_value(v))).collect();
+            e.sort_by(|a, b| a.0.cmp(&b.0));
+            Object(e.into_iter().collect())
+        }
+        Array(a) => Array(a.into_iter().map(sort_value).collect()),
+        x => x,
+    }
+}
+
+pub fn canon_any(r: &dyn CommonResponse) -> AnyResp {
+    let v = serde_json::to_value(r.as_original()).expect("response is serialisable");
+    AnyResp(sort_value(v).to_string())
+}
+
+fn show_any(r: &AnyResp) -> String { format!("J{}", show_str(&r.0)) }
+
+fn entry_any_generic(args: &[&str]) -> String {
+    if args.len() < 3 {
+        return "bad-case".into();
+    }
+    let Some(game) = gamedig::GAMES.get(args[0]) else { return "no-such-game".into() };
+    let (Some(port), Some(script)) = (port_arg(args[1]), parse_net_args(&args[2 ..])) else {
+        return "bad-case".into();
+    };
+    run_q(script, || gamedig::query(game, &IP, port).map(|b| canon_any(b.as_ref())), show_any)
+}
+
+fn entry_any_module(args: &[&str]) -> String {
+    if args.len() < 3 {
+        return "bad-case".into();
+    }
+    let (Some(port), Some(script)) = (port_arg(args[1]), parse_net_args(&args[2 ..])) else {
+        return "bad-case".into();
+    };
+    let id = args[0].to_string();
+    let mut exists = true;
+    let out = run_q(
+        script,
+        || {
+            match crate::gen_games::any_module(&id, &IP, port) {
+                Some(r) => r,
+                None => {
+                    exists = false;
+                    Err(gamedig::GDErrorKind::InvalidInput.context("no module"))
+                }
+            }
+        },
+        show_any,
+    );
+    if exists {
+        out
+    } else {
+        "no-such-module".into()
+    }
+}
+
+/// the protocol-level query with the definition's parameters (protocol tag and port from the translated table)
+fn entry_any_protocol(args: &[&str]) -> String {
+    use gamedig::games::minecraft;
+    use gamedig::protocols::{gamespy, quake, unreal2};
+    if args.len() < 3 {
+        return "bad-case".into();
+    }
+    let (Some(port), Some(script)) = (args[1].parse::<u16>().ok(), parse_net_args(&args[2 ..])) else {
+        return "bad-case".into();
+    };
+    let a = addr(port);
+    let proto = args[0].to_string();
+    let mut known = true;
+    let out = run_q(
+        script,
+        || {
+            Ok(match proto.as_str() {
+                "unreal2" => canon_any(&unreal2::query(&a, &unreal2::GatheringSettings::default(), None)?),
+                "gs1" => canon_any(&gamespy::one::query(&a, None)?),
+                "gs2" => canon_any(&gamespy::two::query(&a, None)?),
+                "gs3" => canon_any(&gamespy::three::query(&a, None)?),
+                "quake1" => canon_any(&quake::one::query(&a, None)?),
+                "quake2" => canon_any(&quake::two::query(&a, None)?),
+                "quake3" => canon_any(&quake::three::query(&a, None)?),
+                "prop:FFOW" => canon_any(&gamedig::games::ffow::query_with_timeout(&IP, Some(port), None)?),
+                "prop:Savage2" => canon_any(&gamedig::games::savage2::query_with_timeout(&IP, Some(port), None)?),
+                "prop:TheShip" => canon_any(&gamedig::games::theship::query_with_timeout(&IP, Some(port), None)?),
+                "prop:JC2M" => canon_any(&gamedig::games::jc2m::query_with_timeout(&IP, Some(port), None)?),
+                "prop:Mindustry" => canon_any(&gamedig::games::mindustry::protocol::query_with_retries(&a, &None)?),
+                "prop:Minecraft(None)" => canon_any(&minecraft::protocol::query(&a, None, None)?),
+                "prop:Minecraft(Some(Server::Java))" => canon_any(&minecraft::protocol::query_java(&a, None, None)?),
+                "prop:Minecraft(Some(Server::Bedrock))" => canon_any(&minecraft::protocol::query_bedrock(&a, None)?),
+                "prop:Minecraft(Some(Server::Legacy(LegacyGroup::V1_6)))" => {
+                    canon_any(&minecraft::protocol::query_legacy_specific(minecraft::LegacyGroup::V1_6, &a, None)?)
+                }
+                "prop:Minecraft(Some(Server::Legacy(LegacyGroup::V1_4)))" => {
+                    canon_any(&minecraft::protocol::query_legacy_specific(minecraft::LegacyGroup::V1_4, &a, None)?)
+                }
+                "prop:Minecraft(Some(Server::Legacy(LegacyGroup::VB1_8)))" => {
+                    canon_any(&minecraft::protocol::query_legacy_specific(minecraft::LegacyGroup::VB1_8, &a, None)?)
+                }
+                _ => {
+                    known = false;
+                    return Err(gamedig::GDErrorKind::InvalidInput.context("protocol tag"));
+                }
+            })
+        },
+        show_any,
+    );
+    if known {
+        out
+    } else {
+        "no-such-protocol".into()
+    }
 }
